@@ -12,6 +12,16 @@ CLAIMS = {
          "Transition lookups key on floor/ceil of fractional instants, TZif parse steps are ordered and verified, constants and the two copies agree. Does NOT decide agreement with tzdata.", "4/C03"),
  "C05": ("E1 panic reachability over the resolved call graph + interval/length abstract interpretation + CONTRACT/PRECOND",
          "Every panic site reachable from a Result-returning public function is discharged by a sound local rule, a reviewed reason or a known finding; field/parameter contracts assumed by the interval analysis are checked at every store/call. Over-approximate (no path feasibility beyond the listed rules). Does NOT decide that Ok values are the right values.", "4/C05"),
+ "C04": ("STRATEGY-TABLE + KIND-TABLE + LOOKUP-TABLE (decision tables from MIR path conditions) + E1 + FLOOR-A",
+         "The four disambiguation strategies and the gap/fold bookkeeping of the TZif and POSIX lookups are exactly the documented finite tables (extracted from the type-checked program with path conditions); no panic site is reachable from the civil->instant resolution without a discharge; wall-clock window arithmetic floors. Does NOT decide agreement of the precomputed tables with each zone's data.", "4/C04"),
+ "C06": ("PIPELINE: symbolic provenance terms matched against the documented composition",
+         "Zoned::checked_add/sub, start_of_day, end_of_day are exactly the documented composition of named steps (calendar part on the civil datetime, compatible resolution, time part on the instant, same zone). Does NOT decide that each step computes the right value.", "4/C06"),
+ "C07": ("E1 panic reachability from the difference APIs + TWIN + TZ-DEP (provenance terms)",
+         "No panic site reachable from until/since/duration_* without a discharge; since is until with one negation, duration twins swap operands; every non-error return of the zoned difference depends on re-resolving an intermediate civil datetime in the zone. Does NOT decide a + s == b, balance or sign consistency.", "4/C07"),
+ "C08": ("PIPELINE + SATURATING-TABLE + CONTRACT/PRECOND + E2 ranged-integer value analysis (O-WRAPMOD etc.)",
+         "Date::checked_add_span is the documented order of checked steps; saturating variants clamp by the operand's sign; no wrap-then-modulo and no unchecked out-of-range ranged value in civil arithmetic (one recorded known finding: Time::wrapping_add_span). Does NOT decide equality with wide-integer reference arithmetic.", "4/C08"),
+ "C10": ("INCREMENT-TABLE + ROUND-TABLE (truth-table enumeration over the CFG) + NONINTERFERENCE + PIPELINE + E2",
+         "Increment tables equal the unit-constant ratios; the 9 rounding modes' increment conditions equal Temporal's table; the day carry does not depend on the year; zoned rounding pipelines are the documented composition; rounded results are range-checked. Does NOT decide concrete neighbours beyond the tables.", "4/C10"),
  "C13": ("ZONED-CONSTRUCT + EQ-FIELDS + TZ-CHANGE (symbolic provenance terms over rustc MIR)",
          "A Zoned is only assembled from parts derived from (tz, ts) or the unambiguous civil lookup for the same dt; Eq/Ord/Hash read only the instant; zone changes keep the instant.", "4/C13"),
  "C14": ("FLOOR-B + ITER-FEEDBACK + FLOOR-A (def-use rules over rustc MIR)",
